@@ -10,4 +10,4 @@ Extraction "rec_model.ml"
   RecordModel.padToBlockSize RecordModel.incSeq RecordModel.conn_Write RecordModel.recv_all
   RecordModel.read_calls RecordModel.apply_script RecordModel.readRecord RecordModel.write_calls RecordModel.sendAlertLocked RecordModel.readRecords_hs
   RecordSpec.tls_pad_ok
-  RecordSM4.sm4_prims KeyModel.keysFromMasterSecret_model sm4_round_keys sm4_encrypt_rk sm4_decrypt_rk hmac_sm3 GcmRef.gcm_seal GcmRef.gcm_open.
+  RecordSM4.sm4_prims KeyModel.keysFromMasterSecret_model KeyModel.finishedSum_bytes SM3Spec.sm3 sm4_round_keys sm4_encrypt_rk sm4_decrypt_rk hmac_sm3 GcmRef.gcm_seal GcmRef.gcm_open.
